@@ -1,4 +1,5 @@
 import Nstd.Variant.DeepWalk
+import Nstd.Variant.DeepSelfTemp
 /-
   `dstep` (deep model) against `specStep` (store of values).
 -/
@@ -105,13 +106,13 @@ theorem root_tmp_step (ds : DblSem) {s : DState} {σ : Store} (hg : DGood s σ) 
     | lit x => exact absurd ha (by simp [ValSOk])
     | list l =>
       obtain ⟨s2, hsb, hra⟩ := core_result r
-      simp only [dstep, walkMut, leafOp]; simp only [f] at rt hsb hra; rw [rt]; simp only [hsb, hra, Option.map]
+      simp only [dstep, selfTemp_nil, Bool.false_eq_true, if_false, walkMut, leafOp]; simp only [f] at rt hsb hra; rw [rt]; simp only [hsb, hra, Option.map]
     | array l =>
       obtain ⟨s2, hsb, hra⟩ := core_result r
-      simp only [dstep, walkMut, leafOp]; simp only [f] at rt hsb hra; rw [rt]; simp only [hsb, hra, Option.map]
+      simp only [dstep, selfTemp_nil, Bool.false_eq_true, if_false, walkMut, leafOp]; simp only [f] at rt hsb hra; rw [rt]; simp only [hsb, hra, Option.map]
     | map m =>
       obtain ⟨s2, hsb, hra⟩ := core_result r
-      simp only [dstep, walkMut, leafOp]; simp only [f] at rt hsb hra; rw [rt]; simp only [hsb, hra, Option.map]
+      simp only [dstep, selfTemp_nil, Bool.false_eq_true, if_false, walkMut, leafOp]; simp only [f] at rt hsb hra; rw [rt]; simp only [hsb, hra, Option.map]
   · rw [hval, valS_eval_rel hrel a hall] at hgood; exact hgood
 
 /-- `~Variant()` and construction from a temporary container -/
@@ -424,39 +425,48 @@ theorem dstep_refines (ds : DblSem) {s : DState} {σ σ' : Store} (hg : DGood s 
                 (fun g2 _ hrel2 => hrel2 w hw) (s.h.next + allocBound (.mut v [] (.assign (.var w))) + 1)
                 (by have := liveCount_le_next s.h; omega)
               exact ⟨s', by simp only [dstep, hvw, if_false]; exact r, g'⟩
-          -- everything else runs on the held cell, through the nested walk
-          have heldCase : (∀ w, ¬ (p = [] ∧ lf = .assign (.var w))) → (p = [] → setsSeq lf = false) →
-              ∃ s', dstep ds s (.mut v p lf) = some s' ∧ DGood s' (upd σ v y) := by
-            intro hna hnt
-            have hd := held_take i v hv7
-            have hnv : v ∉ lf.vars := by
-              intro hin
-              have hm : mutOk v p lf = true := hmok
-              have hcon : lf.vars.contains v = true := by simpa using hin
+          -- the caller-side precondition, once the self-temporary lines are set apart
+          have hnvOf : (∀ w, ¬ (p = [] ∧ lf = .assign (.var w))) → (p = [] → setsSeq lf = false) →
+              selfTemp v p lf = false → v ∉ lf.vars := by
+            intro hna hnt hself hin
+            have hm : mutOk v p lf = true := hmok
+            have hcon : lf.vars.contains v = true := by simpa using hin
+            cases lf with
+            | assign src =>
               cases p with
-              | cons st p' => simp [mutOk, hcon] at hm; exact hm hin
               | nil =>
-                cases lf with
-                | assign src =>
-                  cases src with
-                  | var w => exact hna w ⟨rfl, rfl⟩
-                  | lit x => simp [LeafS.vars, Src.vars] at hin
-                | set e =>
-                  cases e with
-                  | lit x => simp [LeafS.vars, ValS.vars] at hin
-                  | list l => exact absurd (hnt rfl) (by simp [setsSeq])
-                  | array l => exact absurd (hnt rfl) (by simp [setsSeq])
-                  | map m => exact absurd (hnt rfl) (by simp [setsSeq])
-                | clear => simp [LeafS.vars] at hin
-                | touch k => simp [LeafS.vars] at hin
-                | lapp src => simp [mutOk, hcon] at hm; exact hm hin
-                | lpre src => simp [mutOk, hcon] at hm; exact hm hin
-                | aapp src => simp [mutOk, hcon] at hm; exact hm hin
-                | lrem i => simp [LeafS.vars] at hin
-                | arem i => simp [LeafS.vars] at hin
-                | mput k src => simp [mutOk, hcon] at hm; exact hm hin
-                | mrem k => simp [LeafS.vars] at hin
-                | sapp t => simp [LeafS.vars] at hin
+                cases src with
+                | var w => exact hna w ⟨rfl, rfl⟩
+                | lit x => simp [LeafS.vars, Src.vars] at hin
+              | cons st p' => simp [mutOk] at hm; exact hm hin
+            | set e =>
+              cases p with
+              | nil =>
+                cases e with
+                | lit x => simp [LeafS.vars, ValS.vars] at hin
+                | list l => exact absurd (hnt rfl) (by simp [setsSeq])
+                | array l => exact absurd (hnt rfl) (by simp [setsSeq])
+                | map m => exact absurd (hnt rfl) (by simp [setsSeq])
+              | cons st p' =>
+                simp only [selfTemp, List.isEmpty_cons, Bool.not_false, Bool.true_and] at hself
+                simp only [LeafS.vars] at hcon
+                rw [hcon] at hself; cases hself
+            | clear => simp [LeafS.vars] at hin
+            | touch k => simp [LeafS.vars] at hin
+            | lapp src => simp [mutOk] at hm; exact hm hin
+            | lpre src => simp [mutOk] at hm; exact hm hin
+            | aapp src => simp [mutOk] at hm; exact hm hin
+            | lrem i => simp [LeafS.vars] at hin
+            | arem i => simp [LeafS.vars] at hin
+            | mput k src => simp [mutOk] at hm; exact hm hin
+            | mrem k => simp [LeafS.vars] at hin
+            | sapp t => simp [LeafS.vars] at hin
+          -- everything else runs on the held cell, through the nested walk
+          have heldCase : (∀ w, ¬ (p = [] ∧ lf = .assign (.var w))) → (p = [] → setsSeq lf = false) → selfTemp v p lf = false →
+              ∃ s', dstep ds s (.mut v p lf) = some s' ∧ DGood s' (upd σ v y) := by
+            intro hna hnt hself
+            have hd := held_take i v hv7
+            have hnv : v ∉ lf.vars := hnvOf hna hnt hself
             have hsrc : ∀ w ∈ lf.vars, s.vars w = upd s.vars v .null w ∧ w < nslots := by
               intro w hw
               have : w ≠ v := by intro e; subst e; exact hnv hw
@@ -471,16 +481,25 @@ theorem dstep_refines (ds : DblSem) {s : DState} {σ σ' : Store} (hg : DGood s 
               (by have := liveCount_le_next s.h; simp only [allocBound]; omega)
             refine ⟨{ h := h', vars := upd s.vars v c' }, ?_, put_back i hrel htmp v hv y _ h' c' g' st⟩
             cases p with
-            | cons st p' => simp only [dstep, r, Option.map]
+            | cons st p' => simp only [dstep, hself, Bool.false_eq_true, if_false, r, Option.map]
             | nil =>
               cases lf with
               | assign src =>
                 cases src with
                 | var w => exact absurd ⟨rfl, rfl⟩ (hna w)
-                | lit x => simp only [dstep, r, Option.map]
-              | _ => simp only [dstep, r, Option.map]
+                | lit x => simp only [dstep, selfTemp_nil, Bool.false_eq_true, if_false, r, Option.map]
+              | _ => simp only [dstep, selfTemp_nil, Bool.false_eq_true, if_false, r, Option.map]
           cases p with
-          | cons st p' => exact heldCase (by intro w hh; cases hh.1) (by intro hh; cases hh)
+          | cons st p' =>
+            by_cases hself : selfTemp v (st :: p') lf = true
+            · -- a temporary that holds copies of `v`, assigned below the root: built before the walk
+              cases lf with
+              | set e =>
+                obtain ⟨s', r, g'⟩ := selfTempStep_refines ds hg0 v hv (st :: p') e hls hall y hy
+                  (s.h.next + allocBound (.mut v (st :: p') (.set e)) + 1) (by simp only [allocBound]; omega)
+                exact ⟨s', by simp only [dstep, hself, if_true]; exact r, g'⟩
+              | _ => simp [selfTemp] at hself
+            · exact heldCase (by intro w hh; cases hh.1) (by intro hh; cases hh) (by simpa using hself)
           | nil =>
             -- a temporary container assigned to the variable itself
             have tmpCase : ∀ a, lf = .set a → (match a with
@@ -497,14 +516,14 @@ theorem dstep_refines (ds : DblSem) {s : DState} {σ σ' : Store} (hg : DGood s 
             | assign src =>
               cases src with
               | var w => exact assignVarCase w rfl rfl
-              | lit x => exact heldCase (by intro w hh; cases hh.2) (fun _ => rfl)
+              | lit x => exact heldCase (by intro w hh; cases hh.2) (fun _ => rfl) (selfTemp_nil _ _)
             | set a =>
               cases a with
-              | lit x => exact heldCase (by intro w hh; cases hh.2) (fun _ => rfl)
+              | lit x => exact heldCase (by intro w hh; cases hh.2) (fun _ => rfl) (selfTemp_nil _ _)
               | list l => exact tmpCase _ rfl hls
               | array l => exact tmpCase _ rfl hls
               | map m => exact tmpCase _ rfl hls
-            | _ => exact heldCase (by intro w hh; cases hh.2) (fun _ => rfl)
+            | _ => exact heldCase (by intro w hh; cases hh.2) (fun _ => rfl) (selfTemp_nil _ _)
     · cases hspec
 
 end Nstd.Variant.Deep
